@@ -331,3 +331,52 @@ Section ReaderProofs.
     List.length (snd (read_dataset TS N read_ts read_num (render hdr rows))) = List.length rows.
   Proof. intros. rewrite read_render by assumption. reflexivity. Qed.
 End ReaderProofs.
+
+(* ================================================================== audit round: further behaviour *)
+
+(* any number of blanks after the delimiter (skipinitialspace): "a;b", "a; b", "a;   b" read the same *)
+Lemma lstrip_spaces k f : lstrip (repeat space k ++ f) = lstrip f.
+Proof. induction k as [|k IH]; [reflexivity|]. cbn [repeat app]. rewrite lstrip_pad. exact IH. Qed.
+
+Lemma fields_render_k k fs : fs <> [] -> Forall clean fs -> fields (join (semi :: repeat space k) fs) = fs.
+Proof.
+  intros Hn HF. destruct fs as [|a tl]; [congruence|]. unfold fields.
+  assert (Hs : ~ In semi (repeat space k)) by (intros E; apply repeat_spec in E; discriminate).
+  assert (HF' : Forall (fun f => ~ In semi f) (a :: tl)) by (eapply Forall_impl; [|exact HF]; intros f [H _]; exact H).
+  destruct tl as [|b tl].
+  - cbn [join]. unfold split. rewrite split_acc_last by (inversion HF'; assumption). cbn [rev app map].
+    inversion HF as [|? ? [_ E] _]. rewrite E. reflexivity.
+  - rewrite join_cons2. unfold split. cbn [app]. rewrite split_acc_field by (inversion HF'; assumption).
+    cbn [rev app map]. inversion HF as [|? ? [_ Ea] HFt]; subst. rewrite Ea. f_equal.
+    change (split_acc semi [] (repeat space k ++ join (semi :: repeat space k) (b :: tl)))
+      with (split semi (repeat space k ++ join (semi :: repeat space k) (b :: tl))).
+    rewrite split_join_pad by (auto; inversion HF'; assumption).
+    clear -HFt. induction HFt as [|f l [_ Ef] _ IH]; [reflexivity|]. cbn [map]. rewrite lstrip_spaces, Ef. f_equal. exact IH.
+Qed.
+
+(* reading the written file back: split at newlines, drop the empty tail, split each line at ';' *)
+Definition parse_back (t : text) : list (list text) := map (split semi) (removelast (split newline t)).
+
+Lemma in_join c sep l : In c (join sep l) -> In c sep \/ exists f, In f l /\ In c f.
+Proof.
+  induction l as [|a l IH]; [intros []|]. destruct l as [|b l].
+  - cbn [join]. intros H. right. exists a. split; [left; reflexivity|exact H].
+  - rewrite join_cons2. intros H. apply in_app_or in H. destruct H as [H|H].
+    + right. exists a. split; [left; reflexivity|exact H].
+    + apply in_app_or in H. destruct H as [H|H]; [left; exact H|].
+      destruct (IH H) as [E|[f [Hf Hc]]]; [left; exact E|right; exists f; split; [right; exact Hf|exact Hc]].
+Qed.
+
+Lemma parse_back_file V (fmt : V -> text) names units n coords :
+  ~ In newline (header names units n) -> (forall v, ~ In newline (fmt v)) -> (forall v, ~ In semi (fmt v)) ->
+  Forall (fun row => row <> []) coords ->
+  parse_back (file_text (file_lines V fmt names units n coords)) =
+  split semi (header names units n) :: map (map fmt) coords.
+Proof.
+  intros Hh Hn Hs Hr. unfold parse_back. rewrite file_text_lines.
+  - rewrite removelast_last. unfold file_lines. cbn [map]. f_equal. rewrite map_map.
+    clear Hh. induction Hr as [|row l Hrow _ IH]; [reflexivity|]. cbn [map]. rewrite (row_fields V fmt row Hrow Hs). f_equal. exact IH.
+  - unfold file_lines. constructor; [exact Hh|]. apply Forall_forall. intros l Hl. apply in_map_iff in Hl.
+    destruct Hl as [row [<- _]]. unfold row_line. intros E. apply in_join in E. destruct E as [[E|[]]|[f [Hf Hc]]]; [discriminate|].
+    apply in_map_iff in Hf. destruct Hf as [v [<- _]]. exact (Hn v Hc).
+Qed.
